@@ -121,6 +121,10 @@ var c10Tmpls = []c10Tmpl{
 	{".[-1]", "seq", "1", false, "index"},
 	{".[0], .[1]", "seq", "many", false, "union"},
 	{".[]", "seq", "many", false, "splat"},
+	{".[] | key", "seq", "many", false, "key"},
+	{"[.[] | key]", "seq", "1", false, "key"},
+	{".[] | key | . * 10", "seq", "many", false, "key"},
+	{".[] | key", "map", "many", false, "key"},
 	{".[] | select(. > 1)", "seq", "many", false, "select"},
 	{"[.[] | select(. > 1)]", "seq", "1", true, "collect"},
 	{"map(. + 1)", "seq", "1", true, "map"},
